@@ -112,7 +112,7 @@ Proof.
   assert (Hsame : forall h', fst (step h o) = h' -> hist_of h' sp = hist_of h sp ->
                   exists x, hist_of h sp = Some x /\ hist_tr o sp x y).
   { intros h' E1 E2. rewrite E1, E2 in Hy. exists y. split; [assumption | constructor]. }
-  destruct o as [pn ecn lvl t ae | p | lvl | lvl now only | pn lvl | |]; cbn [step] in *.
+  destruct o as [pn ecn lvl t ae | p | lvl | lvl now only | pn lvl | | | lvl n]; cbn [step] in *.
   - (* Recv *)
     unfold h_recv in *.
     destruct (Z.eqb_spec lvl rph_EncInitial) as [E0 | E0].
@@ -198,6 +198,11 @@ Proof.
   - exists y. split; [assumption | constructor].
   - exists y. split; [assumption | constructor].
   - exists y. split; [assumption | constructor].
+  - (* Trunc: only lastAck changes *)
+    exists y. split; [| constructor]. cbn [fst] in Hy. unfold h_trunc in Hy.
+    destruct (lvl =? rph_EncInitial); [| destruct (lvl =? rph_EncHandshake); [| destruct (lvl =? rph_Enc1RTT)]];
+      destruct sp as [| [| [| sp]]]; cbn [hist_of hInitial hHandshake hApp option_map aTr] in *; try exact Hy;
+      try (destruct (hInitial h); exact Hy); try (destruct (hHandshake h); exact Hy).
 Qed.
 
 (** * What was received, read off the executed trace *)
@@ -283,7 +288,7 @@ Proof.
      (forall p, o <> Ignore p)) \/
     (exists p, o = Ignore p /\ hApp h' = app_ignore_below (hApp h) p)).
   { intros h' E2 E3. left. rewrite E2. auto. }
-  destruct o as [pn ecn lvl t ae | p | lvl | lvl now only | pn lvl | |]; cbn [step].
+  destruct o as [pn ecn lvl t ae | p | lvl | lvl now only | pn lvl | | | lvl n]; cbn [step].
   - assert (Happ : forall low,
       let hh := fst (let (a', r) := app_recv (hApp h) pn ecn t ae in
                     match r with
@@ -327,6 +332,9 @@ Proof.
   - apply Hsame; [reflexivity | discriminate].
   - apply Hsame; [reflexivity | discriminate].
   - apply Hsame; [reflexivity | discriminate].
+  - left. cbn [fst]. unfold h_trunc.
+    destruct (lvl =? rph_EncInitial); [| destruct (lvl =? rph_EncHandshake); [| destruct (lvl =? rph_Enc1RTT)]];
+      cbn [hApp aIgnoreBelow aMaxAckDelay aTr tr_trunc tHist]; repeat split; auto; discriminate.
 Qed.
 
 Lemma invB_init : invB [] newHandler.
